@@ -104,7 +104,7 @@ def main():
                     if dest_dir.endswith(".go"):
                         dest_dir = os.path.dirname(dest_dir)
                 if dest_dir is None:
-                    hint = re.search(re.escape(fn) + r"\s+to\s+((?:[\w.-]+/)+)" + re.escape(fn), run_txt)
+                    hint = re.search(re.escape(fn) + r"\s+(?:copied\s+|placed\s+|moved\s+)?(?:in)?to\s+((?:[\w.-]+/)+)" + re.escape(fn), run_txt)
                     if hint:
                         dest_dir = hint.group(1).strip("/")
                 if dest_dir is None:
